@@ -12,16 +12,17 @@ LEVEL = "exploration"
 COUNTS = {"quick": 6000, "thorough": 600000}
 RULE = ("seeded histories: 1-4 Enums alive at once, built from a dict, from keywords or by an OpCode object as its service-action table, with 0-8 entries (ints with repeated values, "
         "strings, bytes, tuples, None, nested dicts, OpCode objects; identifier and non-identifier names such as '5.25', 'CD-I', '_RESERVED', 'name', 'kwargs'), then "
-        "0-30 operations from {attribute read, E[value], keys, add, remove, add existing, remove missing, build another Enum}; after "
+        "0-30 operations from {attribute read, E[value], keys, add, remove, add existing, remove missing, build another Enum, the library's "
+        "get_opcode() lookup on it or on a command-set table, a facade attaching to a device}; after "
         "every operation every live Enum is compared with its dict model (names in order, values, reverse lookup of every value and "
-        "of absent values). Non-trivial = at least one add or remove succeeded while two or more Enums were alive; distinct = event "
+        "of absent values); the library's five command-set tables, on which no add/remove is made, must stay unchanged. Non-trivial = at least one add or remove succeeded while two or more Enums were alive; distinct = event "
         "digest. Excluded by the property's wording: names starting with '__', names of type/Enum API attributes, callable values, NaN")
 COMPONENTS = {"real": ["pyscsi.utils.enum.Enum", "pyscsi.pyscsi.scsi_opcode.OpCode"], "stubs": [], "simulated_peers": ["dict reference model per Enum"]}
 ASSUMPTIONS = [
     "E[v] must return the first name in insertion order whose value == v, '' if none (property statement); re-adding a removed name appends it at the end, as in a dict",
     "constructing from an empty mapping: Enum({}) is accepted (OpCode relies on it); Enum() with neither dict nor keywords is refused by design and not generated",
 ]
-REQUIRED_PROBES = ["shared_source_dict", "source_dict_mutated", "opcode_serviceaction_enum", "add_ok", "remove_ok", "add_existing_refused", "remove_missing_refused", "duplicate_values", "multi_enum"]
+REQUIRED_PROBES = ["shared_source_dict", "source_dict_mutated", "opcode_serviceaction_enum", "add_ok", "remove_ok", "add_existing_refused", "remove_missing_refused", "duplicate_values", "multi_enum", "library_helper_read", "library_attach"]
 
 NAMES = ["A", "B", "C", "READ_10", "x", "y1", "Zz", "value", "name_", "k9", "5.25", "CD-I", "CD-ROM XA", "Less than 1.8", "a b", "é",
          "_RESERVED", "_x", "name", "args", "kwargs", "key", "bases", "dict"]      # single leading underscore; names that are parameters of the constructor machinery
@@ -74,8 +75,14 @@ def generate(rng, idx, tier):
             ops.append({"op": "getattr", "e": e, "name": rng.choice(NAMES)})
         elif r < 0.9:
             ops.append({"op": "lookup", "e": e, "value": gen_value(rng)})
-        else:
+        elif r < 0.95:
             ops.append({"op": "keys", "e": e})
+        elif r < 0.975:
+            # a library helper that only *reads* an enumeration: the service-action opcode lookup by name suffix
+            ops.append({"op": "lib_lookup", "e": e, "suffix": rng.choice(["9E", "A3", "10", "_x", "AD"]), "table": rng.choice([None, "sbc", "spc", "smc", "mmc", "ssc"])})
+        else:
+            # the library's own use of its tables: a facade attaches to a device of some type
+            ops.append({"op": "lib_attach", "e": e, "type": rng.choice([0, 1, 5, 8, 3, 7, 0x1F])})
     return {"property": ID, "config": {}, "ops": ops}
 
 
@@ -97,9 +104,13 @@ def show(v):
     return repr(v)[:60] if not hasattr(v, "value") else "OpCode(%r,%r)" % (getattr(v, "name", None), getattr(v, "value", None))
 
 
+LIB_TABLES = ("spc", "sbc", "ssc", "smc", "mmc")
+
+
 def execute(prog):
     WORLD.reset()
     from pyscsi.utils.enum import Enum
+    import pyscsi.pyscsi.scsi_enum_command as EC
     V = []
     enums, models, sources = [], [], []
     summary = []
@@ -107,8 +118,43 @@ def execute(prog):
     def viol(oracle, detail, expected, actual):
         V.append(dict(oracle=oracle, where="enum", detail=detail, expected=expected, actual=actual))
 
+    def eq(a, b):
+        """a == b as the library's reverse lookup would ask it; a comparison that raises is the library's problem, not the harness's"""
+        try:
+            return bool(a == b)
+        except Exception as e:  # noqa
+            viol("C18.value-compare", "raises/" + type(e).__name__, "%s == %s is a truth value" % (show(a), show(b)), repr(e)[:80])
+            return False
+
+    # the library's own command-set tables: nobody in this run adds to or removes from them, so they must stay what they are
+    lib0 = {}
+    for t in LIB_TABLES:
+        tab = getattr(EC, t)
+        lib0[t] = [(k, getattr(tab, k)) for k in tab.keys]
+
+    def compare_lib(after):
+        for t in LIB_TABLES:
+            tab = getattr(EC, t)
+            try:
+                now = [(k, getattr(tab, k)) for k in tab.keys]
+            except Exception as e:  # noqa
+                viol("C18.library-table", t + "/raises", "table %s readable after %s" % (t, after), repr(e)[:80])
+                continue
+            if [k for k, _ in now] != [k for k, _ in lib0[t]]:
+                extra = [k for k, _ in now if k not in dict(lib0[t])]
+                gone = [k for k, _ in lib0[t] if k not in dict(now)]
+                viol("C18.library-table", t + "/names", "command set %s unchanged after %s (no add/remove was made on it)" % (t, after),
+                     "new names %s, missing names %s" % (extra[:4], gone[:4]))
+            elif any(a[1] is not b[1] for a, b in zip(now, lib0[t])):
+                viol("C18.library-table", t + "/values", "command set %s unchanged after %s" % (t, after), "a member's value was replaced")
+
     def compare_all(after):
-        for n, (E, M) in enumerate(zip(enums, models)):
+        for n, (getE, M) in enumerate(zip(enums, models)):
+            try:
+                E = getE()
+            except Exception as e:  # noqa
+                viol("C18.keys", "accessor-raises/" + type(e).__name__, "enum #%d reachable after %s" % (n, after), repr(e)[:80])
+                continue
             try:
                 keys = list(E.keys)
             except Exception as e:  # noqa
@@ -123,11 +169,11 @@ def execute(prog):
                 except Exception as e:  # noqa
                     viol("C18.value", "getattr-raises", "%s -> %s" % (name, show(val)), repr(e)[:80])
                     continue
-                if got is not val and got != val:
+                if got is not val and not eq(got, val):
                     viol("C18.value", "value", "%s -> %s (enum #%d after %s)" % (name, show(val), n, after), show(got))
             probes = list(M.values()) + [12345, "no-such-value", None, "pyscsi.utils.enum", "Enum", 0, ""]
             for v in probes:
-                want = next((k for k, x in M.items() if x == v), "")
+                want = next((k for k, x in M.items() if x is v or eq(x, v)), "")
                 try:
                     got = E[v]
                 except Exception as e:  # noqa
@@ -157,14 +203,17 @@ def execute(prog):
                 if form == "opcode":
                     # the service-action enumeration an OpCode object builds from a mapping (possibly empty)
                     from pyscsi.pyscsi.scsi_opcode import OpCode
-                    E = OpCode("OP_%d" % i, 0x5E, d).serviceaction
+                    oc = OpCode("OP_%d" % i, 0x5E, d)
+                    oc.serviceaction
+                    getE = (lambda oc=oc: oc.serviceaction)      # applications reach it through the attribute every time
                     WORLD.probe("opcode_serviceaction_enum")
                 else:
-                    E = Enum(**d) if form == "kw" else Enum(d)
+                    E0 = Enum(**d) if form == "kw" else Enum(d)
+                    getE = (lambda E0=E0: E0)
             except Exception as e:  # noqa
                 viol("C18.construct", type(e).__name__, "Enum built from %r" % (list(d),), repr(e)[:100])
                 continue
-            enums.append(E)
+            enums.append(getE)
             models.append(dict(d))
             sources.append(d)
             summary.append("new%d" % len(d))
@@ -174,7 +223,11 @@ def execute(prog):
             if not enums:
                 continue
             n = op["e"] % len(enums)
-            E, M = enums[n], models[n]
+            try:
+                E, M = enums[n](), models[n]
+            except Exception as e:  # noqa
+                viol("C18.keys", "accessor-raises/" + type(e).__name__, "enum #%d reachable" % n, repr(e)[:80])
+                continue
             if name == "add":
                 key, val = op["name"], real(op["value"])
                 if key in RESERVED or key.startswith("__"):
@@ -234,7 +287,7 @@ def execute(prog):
                     viol("C18.getattr", "%s-instead-of-%s" % (res, want), "getattr(%r) -> %s" % (key, want), res)
             elif name == "lookup":
                 v = real(op["value"])
-                want = next((k for k, x in M.items() if x == v), "")
+                want = next((k for k, x in M.items() if x is v or eq(x, v)), "")
                 try:
                     got = E[v]
                 except Exception as e:  # noqa
@@ -250,6 +303,26 @@ def execute(prog):
                 WORLD.probe("source_dict_mutated")
             elif name == "keys":
                 pass
+            elif name == "lib_lookup":
+                from pyscsi.utils.converter import get_opcode
+                target = getattr(EC, op["table"]) if op.get("table") else E
+                try:
+                    list(get_opcode(target, op["suffix"]))
+                    list(get_opcode(target, op["suffix"]))
+                except Exception as e:  # noqa
+                    viol("C18.library-helper", "get_opcode/" + type(e).__name__, "get_opcode(enum, %r) works on any enumeration" % op["suffix"], repr(e)[:80])
+                WORLD.probe("library_helper_read")
+                compare_lib("get_opcode#%d" % i)
+            elif name == "lib_attach":
+                from props.c13 import PlainDevice
+                from pyscsi.pyscsi.scsi import SCSI
+                from t10 import targets as T
+                try:
+                    SCSI(PlainDevice(EC.spc, T.make_lu(op["type"], 0, 40 + i), None), blocksize=512)
+                except Exception as e:  # noqa
+                    viol("C18.library-helper", "attach/" + type(e).__name__, "attach to a type %#04x device" % op["type"], repr(e)[:80])
+                WORLD.probe("library_attach")
+                compare_lib("attach#%d" % i)
         compare_all("%s#%d" % (name, i))
         if len(V) > 6:
             break
@@ -262,6 +335,7 @@ def execute(prog):
     stats = {"events": len(WORLD.events)}
     for k, v in WORLD.probes.items():
         stats["probe." + k] = v
+    compare_lib("the run")
     nt = WORLD.probes.get("multi_enum", 0) > 0 and (WORLD.probes.get("add_ok", 0) + WORLD.probes.get("remove_ok", 0)) > 0
     for i, M in enumerate(models):
         WORLD.ev("final", i=i, names=list(M))
